@@ -80,12 +80,14 @@ func (m *Mutex) Unlock() {
 	m.st = t.st
 }
 
-// RWMutex replaces sync.RWMutex (without writer preference: a pending writer
-// does not block new readers; see DESIGN.md section 8).
+// RWMutex replaces sync.RWMutex, with Go's writer preference: once a writer
+// waits in Lock because readers hold the lock, new readers wait behind it (so a
+// recursive RLock with a writer arriving in between deadlocks, as it really does).
 type RWMutex struct {
 	id      uint64
 	writer  bool
 	readers int
+	wwait   int // tasks parked in Lock
 	st      Stamp
 }
 
@@ -99,7 +101,7 @@ func (o opRW) enabled(s *Sched, t *Task, out []Alt) []Alt {
 		if !o.m.writer && o.m.readers == 0 {
 			out = append(out, Alt{T: t})
 		}
-	} else if !o.m.writer {
+	} else if !o.m.writer && !(o.m.wwait > 0 && o.m.readers > 0) {
 		out = append(out, Alt{T: t})
 	}
 	return out
@@ -120,7 +122,9 @@ func (m *RWMutex) Lock() {
 	if m.id == 0 {
 		m.id = t.newObjID()
 	}
+	m.wwait++
 	s.yield(t, opRW{m, true})
+	m.wwait--
 	m.writer = true
 	t.tick(kLock, m.id, 0)
 	t.observe(&m.st)
